@@ -255,6 +255,14 @@ func (r *rewriter) hooksIn(e ast.Node) []ast.Stmt {
 			if id, ok := x.Fun.(*ast.Ident); ok && id.Name == "delete" && len(x.Args) == 2 {
 				if _, isB := info.Uses[id].(*types.Builtin); isB {
 					r.mapW[x.Args[0]] = true
+					if r.localMap(x.Args[0]) {
+						out = append(out, r.localMapStmt(x.Args[0], x.Pos()))
+					}
+				}
+			}
+			if id, ok := x.Fun.(*ast.Ident); ok && id.Name == "len" && len(x.Args) == 1 {
+				if _, isB := info.Uses[id].(*types.Builtin); isB && r.localMap(x.Args[0]) {
+					out = append(out, r.localMapStmt(x.Args[0], x.Pos()))
 				}
 			}
 			// &x.f handed to a sync/atomic function is the atomic access itself, not an escaping address
@@ -291,6 +299,10 @@ func (r *rewriter) hooksIn(e ast.Node) []ast.Stmt {
 						objDone[id] = true
 					}
 				}
+			}
+		case *ast.IndexExpr:
+			if r.localMap(x.X) {
+				out = append(out, r.localMapStmt(x.X, x.Pos()))
 			}
 		case *ast.UnaryExpr:
 			if x.Op == token.AND && !skip[x] {
@@ -440,6 +452,31 @@ func (r *rewriter) accStmts(x ast.Expr, t types.Type, pos token.Pos) []ast.Stmt 
 	return out
 }
 
+// localMap: e is a local variable (or parameter) of map type. A local may alias a shared map ("m := x.fees"
+// under the lock, lookups after unlocking), so accesses to its contents are recorded against the map itself.
+func (r *rewriter) localMap(e ast.Expr) bool {
+	id, ok := e.(*ast.Ident)
+	if !ok {
+		return false
+	}
+	v, ok := r.p.info.Uses[id].(*types.Var)
+	if !ok || v.IsField() || v.Parent() == nil || v.Parent() == r.p.pkg.Scope() {
+		return false
+	}
+	_, isMap := v.Type().Underlying().(*types.Map)
+	return isMap
+}
+
+func (r *rewriter) localMapStmt(e ast.Expr, pos token.Pos) ast.Stmt {
+	r.usedRT = true
+	mk := 2
+	if r.mapW[e] {
+		mk = 3
+	}
+	stats["accmap_local"]++
+	return rtCall("AccMap", ast.NewIdent(e.(*ast.Ident).Name), intLit(mk), strLit(posStr(pos)))
+}
+
 func (r *rewriter) block(list []ast.Stmt) []ast.Stmt {
 	var out []ast.Stmt
 	for _, st := range list {
@@ -497,6 +534,9 @@ func (r *rewriter) stmt(st ast.Stmt) (before []ast.Stmt, after []ast.Stmt) {
 		s.Body.List = append(s.Body.List, append(ph, r.hooksIn(s.Cond)...)...)
 	case *ast.RangeStmt:
 		before = append(before, r.hooksIn(s.X)...)
+		if r.localMap(s.X) {
+			before = append(before, r.localMapStmt(s.X, s.Pos()))
+		}
 		if s.Tok == token.ASSIGN {
 			before = append(before, r.hooksIn(s.Key)...)
 			before = append(before, r.hooksIn(s.Value)...)
